@@ -368,6 +368,9 @@ func c19RunX(e *Env, wide bool, sw *c19SweepCase, park bool) {
 			a := m.Answer(rc)
 			if len(m.AVP) > 0 {
 				a.NewAVP(avpSimOctets, 0, 0, datatype.OctetString(m.AVP[0].Data.Serialize()))
+			} else if h := m.Header.HopByHopID; h > 0 {
+				// a request without AVPs: the answer is labelled from the hop-by-hop id the peer chose
+				a.NewAVP(avpSimOctets, 0, 0, datatype.OctetString(marker(int((h-1)/1000), int((h-1)%1000), 24, 0)))
 			}
 			return a
 		}
@@ -420,6 +423,12 @@ func c19RunX(e *Env, wide bool, sw *c19SweepCase, park bool) {
 		streams, streamIDs, chunks = sw.streams, sw.ids, sw.chunks
 	} else {
 		ns := t.Range(1, 6)
+		// bulk: one stream's message stays incomplete while far more than 64 KiB arrive on another
+		bulk := !park && !wide && t.Chance(1, 25)
+		if bulk {
+			ns = 2
+			e.Probe("bulk-on-one-stream-while-another-is-mid-message")
+		}
 		used := map[uint16]bool{}
 		for i := 0; i < ns; i++ {
 			id := uint16(t.Draw(16))
@@ -429,9 +438,15 @@ func c19RunX(e *Env, wide bool, sw *c19SweepCase, park bool) {
 			used[id] = true
 			streamIDs = append(streamIDs, id)
 			nm := t.Range(1, 4)
+			if bulk && i == 1 {
+				nm = t.Range(70, 110)
+			}
 			var ms []c19Msg
 			for k := 0; k < nm; k++ {
 				size := []int{0, 0, 30, 200, 990, 1010, 1500}[t.Draw(7)]
+				if bulk && i == 1 {
+					size = 900 + t.Draw(300)
+				}
 				m := RefMsg{Cmd: 900, Flags: 0x80, HbH: uint32(1000*int(id) + k + 1), E2E: uint32(k + 1)}
 				if wide {
 					m.Flags = 0x80 | byte(t.Draw(128))
@@ -442,7 +457,14 @@ func c19RunX(e *Env, wide bool, sw *c19SweepCase, park bool) {
 				}
 				m.AVPs = []RefAVP{{Code: avpSimOctets, Data: marker(int(id), k, 24+size, byte(id)*16+byte(k))}}
 				cm := c19Msg{ref: m, bytes: m.Bytes(), rc: []uint32{2001, 0, 3004, 5012, 0xffffffff}[t.Draw(5)]}
-				plan[string(m.AVPs[0].Data[:24])] = cm.rc
+				if !wide && !bulk && t.Chance(1, 8) {
+					// a message that is all header (Message-Length 20)
+					m.AVPs = nil
+					cm = c19Msg{ref: m, bytes: m.Bytes(), rc: 2001}
+					e.Probe("header-only-message")
+				} else {
+					plan[string(m.AVPs[0].Data[:24])] = cm.rc
+				}
 				ms = append(ms, cm)
 			}
 			streams = append(streams, ms)
@@ -472,7 +494,32 @@ func c19RunX(e *Env, wide bool, sw *c19SweepCase, park bool) {
 				cs = append(cs, sctpChunk{id, all[pos : pos+k]})
 				pos += k
 			}
+			if bulk {
+				cs = nil
+				if i == 0 {
+					cut := t.Range(1, len(all)-1)
+					cs = []sctpChunk{{id, all[:cut]}, {id, all[cut:]}}
+				} else {
+					for pos := 0; pos < len(all); {
+						k := t.Range(600, 3000)
+						if k > len(all)-pos {
+							k = len(all) - pos
+						}
+						cs = append(cs, sctpChunk{id, all[pos : pos+k]})
+						pos += k
+					}
+				}
+			}
 			chunks = append(chunks, cs)
+		}
+		if bulk {
+			// the first stream's message is begun, the whole bulk arrives, then it is completed
+			sw = &c19SweepCase{streams: streams, ids: streamIDs, chunks: chunks}
+			sw.order = append(sw.order, 0)
+			for range chunks[1] {
+				sw.order = append(sw.order, 1)
+			}
+			sw.order = append(sw.order, 0)
 		}
 	}
 	// classify chunks for the reach probes
